@@ -34,15 +34,18 @@ type WebCase struct {
 }
 
 type Scenario struct {
-	Scn        string    `json:"scn"`
-	Keys       int       `json:"keys"`    // distinct keys (dimension a)
-	Periods    int       `json:"periods"` // points per key, one per period
-	Flushed    int       `json:"flushed"` // keys whose data is flushed before the queries
-	Queries    []string  `json:"queries"`
-	DeadlineMs int       `json:"deadlineMs"`
-	Ks         []int     `json:"ks"` // rows after which the deadline passes (-1: already expired)
-	Stops      []int     `json:"stops"`
-	MemCap     bool      `json:"memCap"`
+	Scn        string   `json:"scn"`
+	Keys       int      `json:"keys"`    // distinct keys (dimension a)
+	Periods    int      `json:"periods"` // points per key, one per period
+	Flushed    int      `json:"flushed"` // keys whose data is flushed before the queries
+	Queries    []string `json:"queries"`
+	DeadlineMs int      `json:"deadlineMs"`
+	Ks         []int    `json:"ks"` // rows after which the deadline passes (-1: already expired)
+	Stops      []int    `json:"stops"`
+	MemCap     bool     `json:"memCap"`
+	// Companions: every deadline case is also run sharing its scan with a query
+	// that was requested a moment earlier and leaves after one row
+	Companions bool      `json:"companions"`
 	Web        []WebCase `json:"web"`
 	// spec/Web.tla: a behaviour of the HTTP API's cache, replayed with real time
 	Life    []LifeStep        `json:"life"`
@@ -90,8 +93,13 @@ func run(sc *Scenario, scratch string, out *bufio.Writer) {
 	dir := filepath.Join(scratch, sc.Scn)
 	os.RemoveAll(dir)
 	defer os.RemoveAll(dir)
-	fail := func(err error) { emit(out, map[string]interface{}{"a": "HarnessError", "scn": sc.Scn, "err": err.Error()}) }
+	fail := func(err error) {
+		emit(out, map[string]interface{}{"a": "HarnessError", "scn": sc.Scn, "err": err.Error()})
+	}
 	opts := &zv.Opts{TickMs: 1000, Stream: "s"}
+	if sc.Companions {
+		opts.CoalesceMs = 20 // requests a few hundred microseconds apart share a scan
+	}
 	tables := []zv.TableDef{{Name: "t", SQL: "SELECT SUM(w) AS f, SUM(x) AS g FROM s GROUP BY a, b, period(1s)", RetTicks: 1000}}
 	n, err := zv.OpenNode(dir, opts, tables)
 	if err != nil {
@@ -202,6 +210,22 @@ func run(sc *Scenario, scratch string, out *bufio.Writer) {
 				line["err"] = err.Error()
 			}
 			emit(out, line)
+			if sc.Companions && k >= 0 {
+				done := make(chan struct{})
+				go func() {
+					n.RawQueryOpts("SELECT * FROM t", true, zv.QueryOpts{StallAtRow: -1, StopAfter: 1})
+					close(done)
+				}()
+				time.Sleep(300 * time.Microsecond)
+				rows, _, err := n.RawQueryOpts(sql, true, o)
+				<-done
+				line := map[string]interface{}{"a": "Run", "sql": sql, "mode": "deadline", "k": k, "full": len(full), "got": len(rows),
+					"complete": same(canon(rows), cf), "companion": true}
+				if err != nil {
+					line["err"] = err.Error()
+				}
+				emit(out, line)
+			}
 		}
 		for _, stop := range sc.Stops {
 			rows, _, err := n.RawQueryOpts(sql, true, zv.QueryOpts{StallAtRow: -1, StopAfter: stop})
